@@ -246,7 +246,7 @@ class VerifyAttrs(object):
         # dimension
         dimension = attrs["dimension"]
         rank = attrs["rank"]
-        if rank:
+        if rank is not None and rank != 0:
             if rank is True:
                 raise RuntimeError(
                     "'rank' attribute must have an integer value"
